@@ -11,6 +11,9 @@ import multiprocessing as mp
 from fractions import Fraction
 
 ROOT = os.path.dirname(os.path.dirname(os.path.abspath(__file__)))
+# development only (seed triage while a sweep runs): SYMX_DEV_TREE=<scratch tree> makes `check` import msdm from there and write
+# evidence / replays under SYMX_DEV_OUT instead of /verif; registered commands never set these
+OUT = os.environ.get('SYMX_DEV_OUT') or ROOT
 EXIT_OK, EXIT_VIOLATION, EXIT_INCONCLUSIVE, EXIT_MACHINERY = 0, 1, 2, 3
 
 
@@ -150,7 +153,7 @@ def finish(pid, mod, tier, seed, results, wall, cross=None):
             if len(notes) < 30 and n not in notes:
                 notes.append(n)
     out_lines = []
-    replay_dir = os.path.join(ROOT, 'replays')
+    replay_dir = os.path.join(OUT, 'replays')
     os.makedirs(replay_dir, exist_ok=True)
     seen_known = set()
     for r, v, k in knownhits:
@@ -232,8 +235,8 @@ def finish(pid, mod, tier, seed, results, wall, cross=None):
         ],
         wall_s=round(wall, 2), violations=len(seen_v),
     )
-    os.makedirs(os.path.join(ROOT, 'evidence'), exist_ok=True)
-    json.dump(ev, open(os.path.join(ROOT, 'evidence', f"{pid}.json"), 'w'), indent=1, default=str)
+    os.makedirs(os.path.join(OUT, 'evidence'), exist_ok=True)
+    json.dump(ev, open(os.path.join(OUT, 'evidence', f"{pid}.json"), 'w'), indent=1, default=str)
     summary = (f"[{pid} {tier}] cases={len(results)} paths={tot['paths']} cut={tot['cut']} obligations={tot['obligations']} "
                f"discharged={tot['discharged']} queries={tot['queries']} solver_s={tot['solver_s']:.1f} twins_ok={tot['twin_ok']} "
                f"violations={len(seen_v)} known={len(seen_known)} wall={wall:.1f}s exit={code}")
